@@ -2,6 +2,7 @@
 // call, a run with an engine thread pool of size N against the pool-less run of the same model and inputs.
 // stdin as parstep_drv ("nthread", "steps", "mode", "setv", plus "reps R"); prints one line per repetition.
 #include <iostream>
+#include <thread>
 #include "mjdrv_common.h"
 static const char* FIELDS = "qpos,qvel,act,qacc,qacc_warmstart,sensordata,contact,efc_force,qfrc_constraint,qfrc_inverse,time,ncon,nefc,nisland,xpos,actuator_force";
 int main() {
@@ -12,7 +13,7 @@ int main() {
   mjSpec* s = mk_spec(lines, i);
   mjModel* m = mj_compile(s, nullptr);
   if (!m) { printf("modelerror %s\n", mjs_getError(s)); return 0; }
-  int nthread = 2, steps = 3, reps = 3; std::string mode = "step";
+  int nthread = 2, steps = 3, reps = 3, racy = 0; std::string mode = "step";
   std::vector<std::pair<std::string, std::string>> sets;
   for (; i < lines.size(); i++) {
     auto t = split(lines[i]); if (t.empty()) continue;
@@ -20,6 +21,7 @@ int main() {
     else if (t[0] == "steps") steps = atoi(t[1].c_str());
     else if (t[0] == "reps") reps = atoi(t[1].c_str());
     else if (t[0] == "mode") mode = t[1];
+    else if (t[0] == "racy") racy = 1;   // negative control of the race detector: two OS threads share one mjData
     else if (t[0] == "setv") sets.push_back({t[1], t.size() > 2 ? t[2] : ""});
   }
   auto apply = [&](mjData* d) {
@@ -35,6 +37,11 @@ int main() {
     out.clear(); std::vector<unsigned char> b;
     for (auto& f : fields) { drv_field_bytes(m, d, f, b); out.push_back(b); }
   };
+  if (racy) {
+    mjData* dr = mj_makeData(m); apply(dr);
+    std::thread a([&] { mj_forward(m, dr); }); std::thread b([&] { mj_forward(m, dr); });
+    a.join(); b.join(); mj_deleteData(dr);
+  }
   mjData* da = mj_makeData(m); apply(da);
   std::vector<std::vector<std::vector<unsigned char>>> ref(steps);
   for (int k = 0; k < steps; k++) { call(da); snap(da, ref[k]); }
